@@ -358,6 +358,119 @@ def rule_R4(body, log):
 LOOP_KW = ('while', 'for', 'loop')
 
 
+def rule_R10(body, log):
+    """R10 loop-value: a `loop { .. break <expr> .. }` used as an expression becomes
+    `{ let __lvN; loop { .. { __lvN = <expr>; break; } .. } __lvN }` (deferred initialisation; rustc's definite-assignment
+    analysis accepts it exactly because every exit of the loop is one of those breaks). Verus has no `break <value>`."""
+    n_done = 0
+    for _round in range(16):
+        toks = tokenize(body)
+        target = None
+        for i in find_loops(toks):
+            if toks[i][1] != 'loop':
+                continue
+            bo = loop_body_open(toks, i)
+            bc = match_close(toks, bo)
+            # own-level breaks with a value
+            brs = []
+            j = bo + 1
+            while j < bc:
+                k, t = toks[j][0], toks[j][1]
+                if k == 'id' and t in LOOP_KW:
+                    nj = nontrivia(toks, j)
+                    if not (t == 'for' and toks[nj][1] == '<'):
+                        j = match_close(toks, loop_body_open(toks, j)) + 1
+                        continue
+                if k == 'p' and t == '|' :
+                    # closures cannot break an outer loop; skip their bodies
+                    cl = [c for c in find_closures(toks) if c[0] == j]
+                    if cl:
+                        s_, e_ = closure_body_span(toks, cl[0][1])
+                        j = e_ + 1
+                        continue
+                if k == 'id' and t == 'break':
+                    nj = nontrivia(toks, j)
+                    if toks[nj][0] == 'lifetime' or toks[nj][1].startswith("'"):
+                        raise Undecided('R10: labelled break')
+                    if not (toks[nj][0] == 'p' and toks[nj][1] in (';', '}', ',')):
+                        # expression extends to the next top-level ; , or the closing brace of the enclosing block
+                        e = nj
+                        while e < bc:
+                            kk, tt = toks[e][0], toks[e][1]
+                            if kk == 'p' and tt in OPEN:
+                                e = match_close(toks, e) + 1
+                                continue
+                            if kk == 'p' and tt in (';', ',', '}', ')', ']'):
+                                break
+                            e += 1
+                        brs.append((j, nj, nontrivia(toks, e, -1)))
+                        j = e
+                        continue
+                j += 1
+            if brs:
+                target = (i, bo, bc, brs)
+                break
+        if target is None:
+            break
+        i, bo, bc, brs = target
+        var = '__lv%d' % n_done
+        edits = [(toks[i][2], toks[i][2], '{ let %s; ' % var), (toks[bc][3], toks[bc][3], ' %s }' % var)]
+        for (jb, e0, e1) in brs:
+            edits.append((toks[jb][2], toks[e1][3], '{ %s = %s; break; }' % (var, body[toks[e0][2]:toks[e1][3]])))
+        for s0, e0_, rep in sorted(edits, key=lambda x: x[0], reverse=True):
+            body = body[:s0] + rep + body[e0_:]
+        log.append({'rule': 'R10', 'loop_with_break_values': len(brs), 'result_variable': var,
+                    'note': '`loop { .. break V .. }` -> `{ let %s; loop { .. { %s = V; break; } .. } %s }`' % (var, var, var)})
+        n_done += 1
+    return body
+
+
+def rule_R11(body, log):
+    """R11 closure-tuple-params: a closure parameter that is a tuple pattern, `|(a, b), v| BODY`, becomes
+    `|__cpK, v| { let (a, b) = __cpK; BODY }` (the language definition of an irrefutable parameter pattern)."""
+    n_done = 0
+    for _round in range(32):
+        toks = tokenize(body)
+        hit = None
+        for (b0, b1) in find_closures(toks):
+            if b1 == b0 + 1:
+                continue
+            ptxt = body[toks[b0][3]:toks[b1][2]]
+            params = split_params(ptxt)
+            if any(p_.strip().startswith('(') for p_ in params):
+                hit = (b0, b1, params)
+                break
+        if hit is None:
+            break
+        b0, b1, params = hit
+        lets, newp = [], []
+        for k_, p_ in enumerate(params):
+            ps = p_.strip()
+            if ps.startswith('('):
+                # pattern (optionally `: type`)
+                ptoks = tokenize(ps)
+                c_ = match_close(ptoks, 0)
+                pat = ps[:ptoks[c_][3]]
+                rest = ps[ptoks[c_][3]:]
+                nm = '__cp%d_%d' % (n_done, k_)
+                lets.append('let %s = %s;' % (pat, nm))
+                newp.append(nm + rest)
+            else:
+                newp.append(ps)
+        s_, e_ = closure_body_span(toks, b1)
+        edits = [(toks[b0][3], toks[b1][2], ', '.join(newp))]
+        if toks[s_][1] == '{':
+            edits.append((toks[s_][3], toks[s_][3], ' ' + ' '.join(lets)))
+        else:
+            edits.append((toks[s_][2], toks[s_][2], '{ ' + ' '.join(lets) + ' '))
+            edits.append((toks[e_][3], toks[e_][3], ' }'))
+        for s0, e0_, rep in sorted(edits, key=lambda x: x[0], reverse=True):
+            body = body[:s0] + rep + body[e0_:]
+        log.append({'rule': 'R11', 'closure_header': ptxt.strip(), 'rewritten_header': ', '.join(newp), 'prepended': ' '.join(lets)})
+        n_done += 1
+    return body
+
+
 def find_loops(toks):
     """indexes of loop keyword tokens in source order"""
     res = []
@@ -795,6 +908,10 @@ def render_extract(ex, vac=False, strip_proof=False):
         body = rule_R5(body, log)
     if 'R4' in ex.rules:
         body = rule_R4(body, log)
+    if 'R11' in ex.rules:
+        body = rule_R11(body, log)
+    if 'R10' in ex.rules:
+        body = rule_R10(body, log)
     if len(ex.maps) > 3:
         raise Undecided('R8: more than three expression maps requested')
     for a, b, why in ex.maps:
@@ -1178,7 +1295,7 @@ def render_shellcheck(sc):
     while j < len(header):
         if header[j] == '<':
             depth += 1
-        elif header[j] == '>':
+        elif header[j] == '>' and header[j - 1] != '-':
             depth -= 1
         elif header[j] == '(' and depth == 0:
             break
